@@ -270,3 +270,8 @@ func vpH_C09_negative_graft() { vpH_C07_handleGraft() }
 // fanout set, whose members need only have met the publish threshold) and the heartbeat — never graft a negatively
 // scored peer, and the heartbeat prunes one (shared with C07).
 func vpH_C09_negative_join() { vpH_C07_join() }
+
+// (heartbeat side, shared with C07: the refill of an under-subscribed mesh, and the outbound-quota refill of a mesh that is
+// within bounds, never graft a negatively scored peer; a negatively scored member is pruned, without peer exchange)
+func vpH_C09_negative_heartbeat()     { vpH_C07_heartbeat_a() }
+func vpH_C09_negative_heartbeat_out() { vpH_C07_heartbeat_out() }
